@@ -39,6 +39,7 @@ type HarnessCfg struct {
 	CheckBlocks bool              `json:"check_blocks"`
 	TimeoutS    TierInt           `json:"timeout_s"`
 	Tiers       []string          `json:"tiers"`
+	OneShot bool `json:"oneshot"`
 	NoFeas      bool              `json:"no_feasibility"`
 	Replay      *ReplayCfg        `json:"replay"`
 	Note        string            `json:"note"`
@@ -71,6 +72,11 @@ type ReplayCfg struct {
 		Pkg  string `json:"pkg"`
 		File string `json:"file"`
 	} `json:"extra"` // further files overlaid into other packages (helpers the driver needs)
+	Scale []struct {
+		File string `json:"file"` // source file of the current tree, relative to /repo
+		From string `json:"from"`
+		To   string `json:"to"`
+	} `json:"scale"` // constants scaled for the native run exactly as in the model (textual substitution, must match once)
 }
 
 type UnitCfg struct {
@@ -592,7 +598,7 @@ func (r *runner) discharge(h *HarnessCfg, res *HarnessResult, ex *Exec, solver *
 		if q.IsFalse() {
 			verdict = "unsat"
 			atomic.AddInt64(&foldedObligations, 1)
-		} else {
+		} else if !h.OneShot {
 			verdict = solver.CheckSat(5000, q)
 		}
 		var qr QueryResult
@@ -602,7 +608,11 @@ func (r *runner) discharge(h *HarnessCfg, res *HarnessResult, ex *Exec, solver *
 				os.MkdirAll(r.dump, 0o755)
 				keep = filepath.Join(r.dump, fmt.Sprintf("%s-%s-%d.smt2", h.Name, sanitize(id), atomic.AddInt64(&r.cexSeq, 1)))
 			}
-			qr = RunOneShot("z3", timeout, q, valueTerms(), keep)
+			if h.OneShot {
+				qr = RunPortfolio(timeout, q, valueTerms(), keep)
+			} else {
+				qr = RunOneShot("z3", timeout, q, valueTerms(), keep)
+			}
 			verdict = qr.Verdict
 			atomic.AddInt64(&GStats.Queries, 1)
 			atomic.AddInt64(&GStats.TimeNanos, int64(qr.Seconds*1e9))
@@ -647,6 +657,7 @@ func (r *runner) discharge(h *HarnessCfg, res *HarnessResult, ex *Exec, solver *
 	if h.AssertFilter != "" {
 		afilter = regexp.MustCompile(h.AssertFilter)
 	}
+	var owg sync.WaitGroup
 	for _, a := range ex.asserts {
 		if afilter != nil && !afilter.MatchString(a.ID) {
 			continue
@@ -655,10 +666,26 @@ func (r *runner) discharge(h *HarnessCfg, res *HarnessResult, ex *Exec, solver *
 		res.Asserts++
 		res.distinctIDs[a.ID+"@"+a.Case] = true
 		r.mu.Unlock()
+		if h.OneShot {
+			a := a
+			q := And(a.PC, Not(a.Cond))
+			owg.Add(1)
+			go func() {
+				defer owg.Done()
+				oneShotSem <- struct{}{}
+				defer func() { <-oneShotSem }()
+				check("assert", a.ID, a.Pos, a.Case, q)
+			}()
+			continue
+		}
 		check("assert", a.ID, a.Pos, a.Case, And(a.PC, Not(a.Cond)))
 	}
+	owg.Wait()
 	for _, a := range ex.reaches {
-		v := solver.CheckSat(20000, a.PC)
+		v := "unknown"
+		if !h.OneShot {
+			v = solver.CheckSat(20000, a.PC)
+		}
 		if v == "unknown" {
 			qr := RunOneShot("z3", timeout, a.PC, nil, "")
 			v = qr.Verdict
@@ -692,7 +719,13 @@ func (r *runner) discharge(h *HarnessCfg, res *HarnessResult, ex *Exec, solver *
 			check("alloc", "alloc:allocation-size-not-bounded-by-limit@"+shortPos(e.Pos), e.Pos, e.Case, e.PC)
 			continue
 		}
-		v := solver.CheckSat(10000, e.PC)
+		var v string
+		if h.OneShot {
+			v = RunPortfolio(60, e.PC, nil, "").Verdict
+			atomic.AddInt64(&GStats.Queries, 1)
+		} else {
+			v = solver.CheckSat(10000, e.PC)
+		}
 		r.mu.Lock()
 		res.Unwinds++
 		if v != "unsat" {
@@ -797,6 +830,8 @@ func (r *runner) discharge(h *HarnessCfg, res *HarnessResult, ex *Exec, solver *
 	}
 }
 
+var oneShotSem = make(chan struct{}, 6)
+
 func eventID(kind string, e Event) string {
 	if kind == "block" {
 		return "block:" + e.Kind + "@" + shortPos(e.Pos) + "[held:" + e.Msg + "]"
@@ -816,7 +851,13 @@ func (r *runner) batchCheck(h *HarnessCfg, res *HarnessResult, ex *Exec, solver 
 		if disj.IsFalse() {
 			return
 		}
-		v := solver.CheckSat(timeout*1000, disj)
+		var v string
+		if h.OneShot {
+			v = RunPortfolio(timeout, disj, nil, "").Verdict
+			atomic.AddInt64(&GStats.Queries, 1)
+		} else {
+			v = solver.CheckSat(timeout*1000, disj)
+		}
 		if v == "unsat" {
 			return
 		}
@@ -1165,6 +1206,15 @@ func runReplay(hdir string, rc *ReplayCfg, cexPath string) (string, string) {
 	ov := map[string]map[string]string{"Replace": {filepath.Join(pkgDir, "zz_verif_replay_test.go"): filepath.Join(hdir, rc.File)}}
 	for _, x := range rc.Extra {
 		ov["Replace"][filepath.Join(repoDir, x.Pkg, "zz_verif_"+filepath.Base(x.File))] = filepath.Join(hdir, x.File)
+	}
+	for i, sc := range rc.Scale {
+		src, err := os.ReadFile(filepath.Join(repoDir, sc.File))
+		if err != nil || strings.Count(string(src), sc.From) != 1 {
+			return "error", "scale: " + sc.File + ": pattern does not match exactly once"
+		}
+		dst := filepath.Join(tmp, fmt.Sprintf("scaled%d.go", i))
+		os.WriteFile(dst, []byte(strings.Replace(string(src), sc.From, sc.To, 1)), 0o644)
+		ov["Replace"][filepath.Join(repoDir, sc.File)] = dst
 	}
 	ovPath := filepath.Join(tmp, "overlay.json")
 	writeJSON(ovPath, ov)
